@@ -61,7 +61,7 @@ def run(ctx):
             ok = ".scope" in flds and not lit_none and flds <= {".scope", ".inner"}
             ctx.ob("S1", k, ok, t["sp"], "clock argument is self.scope" if ok else
                    "the clock handed to %s does not (only) come from self.scope (fields %s, literal None: %s): inside an isolated transaction this lookup sees the document outside the chosen heads" % (norm_fn(t.get("res") or t.get("fn")).split("::")[-1], sorted(flds), lit_none))
-    ctx.floor("clock arguments passed by TransactionInner / BatchInsertion", n, 12)
+    ctx.floor("clock arguments passed by TransactionInner / BatchInsertion", n, 11)
     # ---------------- S1b: no read of the document through the unscoped public API from inside a transaction
     ctx.rule("S1b", "who-may-call: no function of transaction::inner calls an <Automerge as ReadDoc> method (those read at the current heads, ignoring the transaction's scope)")
     n_fns = 0
